@@ -118,6 +118,7 @@ class TreeProbe:
         self.last_pieces = None
         self.multi_piece = 0
         self.empty_dict_nonempty = 0
+        self.n_public_calls = 0
 
     def begin_call(self):
         self.max_ops_call = max(self.max_ops_call, self.ops_this_call)
@@ -139,6 +140,12 @@ class TreeProbe:
         o_dep = bi.BrownianInterval._create_dependency_tree
         o_set = bi._LRUDict.__setitem__
         o_loc_inner = I._loc_inner
+        o_call = bi.BrownianInterval.__call__
+
+        def call(self_, *a, **k):
+            probe.begin_call()  # the operation budget is per public query
+            probe.n_public_calls += 1
+            return o_call(self_, *a, **k)
 
         def loc(self_, ta, tb):
             probe.n_loc += 1
@@ -180,12 +187,14 @@ class TreeProbe:
 
         I._loc, I._split, I._split_exact, I._loc_inner = loc, split, split_exact, loc_inner
         bi.BrownianInterval._create_dependency_tree = dep
+        bi.BrownianInterval.__call__ = call
         bi._LRUDict.__setitem__ = setitem
         try:
             yield self
         finally:
             I._loc, I._split, I._split_exact, I._loc_inner = o_loc, o_split, o_split_exact, o_loc_inner
             bi.BrownianInterval._create_dependency_tree = o_dep
+            bi.BrownianInterval.__call__ = o_call
             bi._LRUDict.__setitem__ = o_set
             self.begin_call()
 
